@@ -1,6 +1,6 @@
 (* Lemmas about the byte-string primitives. *)
 From Verif Require Import Base.Bytes.
-Open Scope nat_scope.
+Local Open Scope nat_scope.
 
 Lemma has_prefix_len lit r : has_prefix lit r = true -> length lit <= length r.
 Proof.
